@@ -1007,6 +1007,17 @@ func (e *Env) call(x *ECall) Val {
 		c.declIface()
 		t := e.typeOf(typeArgText(x.Args[1]))
 		return Val{T: "(dyn_ptr " + v.T + ")", Ty: t}
+	case "exhausted":
+		// exhausted(N): loop N (source order) was left through its own head - its condition became false / its range
+		// ran out - and not through a break, goto or return out of its body, the last time control left it
+		n, ok := x.Args[0].(*ENum)
+		if !ok {
+			e.fail("exhausted() needs a loop ordinal")
+		}
+		if gv, ok := c.ghost["loopdone "+n.Text]; ok {
+			return gv
+		}
+		return Val{T: "false", Ty: boolTy}
 	case "calls":
 		st, ok := x.Args[0].(*EStr)
 		if !ok {
